@@ -3,7 +3,7 @@ Linear-time versions of the byte-wise reader and client automata for the driver 
 definitions append one byte at a time, which is quadratic on long lines).  `Lemmas/Fast.lean`
 proves them equal to the model's definitions.
 -/
-import DtailModel.Model.Wire
+import DtailModel.Model.Multi
 namespace Dtail
 
 /-- reader state with the pending message kept reversed, its length, and the output reversed -/
@@ -32,5 +32,26 @@ def clientByteF (s : CSF) (b : UInt8) : CSF :=
   else ⟨b :: s.rbuf, s.rmsgs⟩
 
 def clientMsgsF (bs : Bytes) : List Bytes := (bs.foldl clientByteF ⟨[], []⟩).rmsgs.reverse
+
+end Dtail
+
+namespace Dtail
+
+/-- several connections: reversed receive buffers (position = connection), output reversed -/
+structure MSF where
+  rbufs : List Bytes
+  rout : List (Nat × Bytes)
+
+def multiByteF (i : Nat) (s : MSF) (b : UInt8) : MSF :=
+  let rb := (s.rbufs[i]?).getD []
+  if b = NL then ⟨s.rbufs.set i [], (i, (b :: rb).reverse) :: s.rout⟩
+  else if b = DELIM then ⟨s.rbufs.set i [], (i, rb.reverse) :: s.rout⟩
+  else ⟨s.rbufs.set i (b :: rb), s.rout⟩
+
+def multiChunkF (s : MSF) (c : Nat × Bytes) : MSF := c.2.foldl (multiByteF c.1) s
+
+/-- the messages printed under a schedule over `n` connections, in print order -/
+def multiRunF (n : Nat) (sched : List (Nat × Bytes)) : List (Nat × Bytes) :=
+  (sched.foldl multiChunkF ⟨List.replicate n [], []⟩).rout.reverse
 
 end Dtail
